@@ -86,6 +86,7 @@ public:
     void* const inactive = producer_inactive_value();
     UNIFEX_VERIF_YIELD("sched.aq.m_load");
     UNIFEX_VERIF_YIELD("mutex.q.eoma");
+    UNIFEX_VERIF_YIELD("io.q.eoma_load");
     void* oldValue = head_.load(std::memory_order_relaxed);
     void* newValue;
     do {
@@ -110,6 +111,7 @@ public:
   [[nodiscard]] bool enqueue(Item* item) noexcept {
     void* const inactive = producer_inactive_value();
     UNIFEX_VERIF_YIELD("sched.aq.e_load");
+    UNIFEX_VERIF_YIELD("io.q.enq_load");
     void* oldValue = head_.load(std::memory_order_relaxed);
     do {
       UNIFEX_VERIF_YIELD("sched.aq.e_cas");
@@ -159,10 +161,12 @@ public:
     void* const inactive = producer_inactive_value();
     UNIFEX_VERIF_YIELD("sched.aq.t_load");
     UNIFEX_VERIF_YIELD("mutex.q.tmi");
+    UNIFEX_VERIF_YIELD("io.q.mark_load");
     void* oldValue = head_.load(std::memory_order_relaxed);
     if (oldValue == nullptr) {
       UNIFEX_VERIF_YIELD("sched.aq.t_cas");
       UNIFEX_VERIF_YIELD("mutex.q.tmi.cas");
+      UNIFEX_VERIF_YIELD("io.q.mark_cas");
       if (head_.compare_exchange_strong(
               oldValue,
               inactive,
@@ -191,6 +195,7 @@ public:
 
     UNIFEX_VERIF_YIELD("sched.aq.t_xchg");
     UNIFEX_VERIF_YIELD("mutex.q.xchg");
+    UNIFEX_VERIF_YIELD("io.q.xchg");
     void* oldValue = head_.exchange(nullptr, std::memory_order_acquire);
     UNIFEX_ASSERT(oldValue != nullptr);
     UNIFEX_ASSERT(oldValue != producer_inactive_value());
